@@ -49,12 +49,18 @@ def all_weightings():
 
         def final(self, searcher, docnum, score):
             return score * 2.0 + 1.0
+    class ByKey(scoring.Frequency):        # a final() hook that looks the document up (by its number) first
+        use_final = True
+
+        def final(self, searcher, docnum, score):
+            return score + len(searcher.stored_fields(docnum)["key"]) * 0.25 + int(searcher.stored_fields(docnum)["key"][1:]) * 0.5
     return [("BM25F", scoring.BM25F()), ("BM25F(B=0.2,K1=2)", scoring.BM25F(B=0.2, K1=2.0)),
             ("BM25F(title_B=1)", scoring.BM25F(B=0.5, title_B=1.0)), ("TF_IDF", scoring.TF_IDF()),
             ("PL2", scoring.PL2()), ("DFree", scoring.DFree()), ("Frequency", scoring.Frequency()),
             ("Multi", scoring.MultiWeighting(scoring.BM25F(), title=scoring.TF_IDF())),
             ("Function", scoring.FunctionWeighting(lambda s, f, t, m: m.weight() * 0.5 + 1.0)),
-            ("Reverse(BM25F)", scoring.ReverseWeighting(scoring.BM25F())), ("BM25F+final", Doubled())]
+            ("Reverse(BM25F)", scoring.ReverseWeighting(scoring.BM25F())), ("BM25F+final", Doubled()),
+            ("Frequency+final(stored)", ByKey())]
 
 
 BM25_PARAMS = {"BM25F": (0.75, 0.75, 1.2), "BM25F(B=0.2,K1=2)": (0.2, 0.2, 2.0), "BM25F(title_B=1)": (0.5, 1.0, 1.2)}
